@@ -298,6 +298,23 @@ def main(argv):
   for v in vacuous:
     print("VACUOUS %s" % v)
 
+  # thorough: the arithmetic lemmas that contracts assume (L-prod, L-sum, L-vertex, L-mean, pow2 / mono / cong schemata)
+  # are re-checked by Lean 4 + Mathlib when this property's contracts use them
+  lean_info = None
+  if tier == "thorough" and any(a.startswith("L-") or "L-prod" in a or "L-sum" in a or "L-mean" in a or "L-vertex" in a
+                                for a in assumptions):
+    lf = os.path.join(VERIF, "lean", "Lemmas.lean")
+    tl = time.time()
+    try:
+      pr = subprocess.run(["lean", lf], capture_output=True, text=True, timeout=1800)
+      ok = pr.returncode == 0 and "sorry" not in open(lf).read() and "error" not in (pr.stdout + pr.stderr)
+      lean_info = {"file": lf, "status": "checked" if ok else "FAILED", "seconds": round(time.time() - tl, 1),
+                   "output_tail": (pr.stdout + pr.stderr)[-400:]}
+    except Exception as e:  # pylint: disable=broad-except
+      lean_info = {"file": lf, "status": "not run: %s" % e, "seconds": round(time.time() - tl, 1)}
+    if lean_info["status"] != "checked":
+      undecided.append(("lean/Lemmas.lean", "assumed arithmetic lemmas could not be re-checked: %s" % lean_info["status"]))
+
   wall = time.time() - t0
   level = "proof" if (obligations == discharged and obligations > 0 and not violations) else "other"
   meta = getattr(mod, "META", {})
@@ -324,6 +341,8 @@ def main(argv):
           "bounded": meta.get("bounded", []) + sorted(bounded_cases.values(), key=lambda b: b["case"]),
           "bounded_note": "cases listed under 'bounded' are bounded stand-ins (bound stated per case); their clauses are NOT included in obligations/discharged",
           "samples": [s for r in results for s in r["samples"]][:4] or [{"note": "no sample"}],
+          "lean_lemmas": lean_info if lean_info is not None else {"file": os.path.join(VERIF, "lean", "Lemmas.lean"),
+                                                                   "status": "not re-checked in this tier (thorough re-checks it)"},
       },
       "assumptions": sorted(set(meta.get("assumptions", [])) | assumptions),
   }
